@@ -187,18 +187,21 @@ Proof.
     specialize (IH _ _ _ _ _ HS' (fun x Hx => Hk x (or_intror Hx)) H). cbn [fst snd env2] in IH. exact IH.
 Qed.
 
+Variable pord : state -> node -> list node -> list node.
+Hypothesis Hpord : forall s x l y, In y (pord s x l) <-> In y l.
+
 (** the dirty propagation from the changed leaves *)
 Lemma MInv_of_MSess : forall sA env env' s s2 batch fuel s4,
   MInv p rk sA [] env s -> MSess s s2 env' batch ->
-  propagate fuel (set_visited (set_stat s2 0%N) []) batch = Ok s4 ->
+  propagate_o pord fuel (set_visited (set_stat s2 0%N) []) batch = Ok s4 ->
   MInv p rk (set_log s4 []) [] env' (set_log s4 []).
 Proof.
   intros sA env env' s s1 batch fuel s40 HI HS Hprop.
   destruct HS as [A B C Dw Dx D E F G W].
   set (s3 := set_visited (set_stat s1 0%N) []) in *.
   assert (HP0 : PVp push_p (fun _ => False) s3 batch) by (intros x []).
-  destruct (propagate_spec_p _ _ _ _ _ Hprop HP0) as (N1 & N2 & N3 & N4 & N5 & N6 & _ & N8 & N9 & N10).
-  destruct (propagate_we _ _ _ _ Hprop) as [Nw Nx].
+  destruct (propagate_spec_p pord Hpord _ _ _ _ _ Hprop HP0) as (N1 & N2 & N3 & N4 & N5 & N6 & _ & N8 & N9 & N10).
+  destruct (propagate_o_we _ _ _ _ _ Hprop) as [Nw Nx].
   cbn [s3 set_visited set_stat s_nodes s_bwd s_ts s_log s_world s_ext] in N1, N2, N3, N4, Nw, Nx.
   set (s4 := set_log s40 []).
   assert (Hget : forall m, get_info s4 m = get_info s1 m) by (intro m; unfold s4, get_info; cbn [set_log s_nodes]; rewrite N1; reflexivity).
@@ -365,15 +368,15 @@ Qed.
 
 (** the entries of the queries are not touched by a session *)
 Lemma MSess_other : forall s s2 env' batch fuel s4 m, MSess s s2 env' batch ->
-  propagate fuel (set_visited (set_stat s2 0%N) []) batch = Ok s4 -> ~ leaf m -> get_info s4 m = get_info s m.
+  propagate_o pord fuel (set_visited (set_stat s2 0%N) []) batch = Ok s4 -> ~ leaf m -> get_info s4 m = get_info s m.
 Proof.
-  intros s s2 env' batch fuel s4 m HS Hprop Hk. apply propagate_same in Hprop. destruct Hprop as (N1 & _).
+  intros s s2 env' batch fuel s4 m HS Hprop Hk. apply propagate_o_same in Hprop. destruct Hprop as (N1 & _).
   unfold get_info at 1. rewrite N1. apply (ms_other _ _ _ _ HS). exact Hk.
 Qed.
 Lemma MSess_stored : forall s s2 env' batch fuel s4 m, MSess s s2 env' batch ->
-  propagate fuel (set_visited (set_stat s2 0%N) []) batch = Ok s4 -> get_info s m <> None -> get_info s4 m <> None.
+  propagate_o pord fuel (set_visited (set_stat s2 0%N) []) batch = Ok s4 -> get_info s m <> None -> get_info s4 m <> None.
 Proof.
-  intros s s2 env' batch fuel s4 m HS Hprop Hm. apply propagate_same in Hprop. destruct Hprop as (N1 & _).
+  intros s s2 env' batch fuel s4 m HS Hprop Hm. apply propagate_o_same in Hprop. destruct Hprop as (N1 & _).
   unfold get_info at 1. rewrite N1. change (get_info s2 m <> None).
   destruct (get_info s m) as [i0|] eqn:Ei; [|congruence].
   assert (Hd : leaf m \/ ~ leaf m).
